@@ -5,6 +5,11 @@
 mod engine;
 mod c07_message;
 mod c09_iptable;
+mod c10_fragment;
+mod c11_reassembly;
+mod c12_modcmp;
+mod c15_ipgen;
+mod codecs;
 
 use engine::*;
 use std::sync::Arc;
@@ -19,11 +24,18 @@ fn part(check: impl Check + 'static, quick: u64, thorough: u64) -> Part {
 
 fn parts_for(id: &str) -> Option<Vec<Part>> {
     Some(match id {
-        "C07" => vec![part(c07_message::MessageOps, 100_000, 5_000_000)],
+        "C07" => vec![part(c07_message::MessageOps, 400_000, 8_000_000)],
         "C09" => vec![
-            part(c09_iptable::TableHistories, 50_000, 3_000_000),
-            part(c09_iptable::NetArithmetic, 100_000, 5_000_000),
+            part(c09_iptable::TableHistories, 400_000, 6_000_000),
+            part(c09_iptable::NetArithmetic, 400_000, 8_000_000),
         ],
+        "C08" => vec![part(codecs::Codecs, 600_000, 12_000_000)],
+        "C10" => vec![part(c10_fragment::Fragmentation, 150_000, 3_000_000)],
+        "C11" => vec![part(c11_reassembly::ReassemblyHistories, 100_000, 2_000_000)],
+        "C12" => vec![part(c12_modcmp::ModCmpLaws, 200_000, 4_000_000)],
+        "C14" => vec![part(codecs::DecodersNoPanic, 1_000_000, 20_000_000)],
+        "C15" => vec![part(c15_ipgen::IpGenHistories, 300_000, 6_000_000)],
+        "C18" => vec![part(codecs::Codecs, 400_000, 8_000_000), part(codecs::CorruptionRejected, 400_000, 8_000_000)],
         _ => return None,
     })
 }
